@@ -195,23 +195,16 @@ mod verif_c13_general_handler {
     fn gh_nop(_f: InterruptStackFrame, _index: u8, _ec: Option<u64>) {}
 
     /// Postcondition of an install, at vector `v`: `x0` / `x` = descriptor before
-    /// / after, `in_range` = v is in the installed range.
+    /// / after, `in_range` = v is in the installed range. `$ob` = obligation prefix
+    /// (the three messages are spelled out per prefix so that Kani prints the full
+    /// obligation name; it shows `concat!` arguments unexpanded).
     macro_rules! check_installed_at {
-        ($ob:literal, $x:expr, $x0:expr, $v:expr, $in_range:expr, $cs:expr) => {{
+        ($present:literal, $gate:literal, $untouched:literal, $x:expr, $x0:expr, $v:expr, $in_range:expr, $cs:expr) => {{
             if $in_range && !is_reserved($v) {
-                assert!(
-                    g_p($x),
-                    concat!($ob, ".present_exactly_non_reserved_in_range: a non-reserved vector in the range is present")
-                );
-                assert!(
-                    g_selector($x) == $cs && g_default_interrupt_gate($x),
-                    concat!($ob, ".installed_entry_is_default_interrupt_gate: selector == CS, type 0xE, DPL 0, IST 0")
-                );
+                assert!(g_p($x), $present);
+                assert!(g_selector($x) == $cs && g_default_interrupt_gate($x), $gate);
             } else {
-                assert!(
-                    $x == $x0,
-                    concat!($ob, ".all_other_entries_untouched: descriptor identical to the prior table (reserved or out of range)")
-                );
+                assert!($x == $x0, $untouched);
             }
         }};
     }
@@ -249,13 +242,19 @@ mod verif_c13_general_handler {
         let mut idt = InterruptDescriptorTable::new();
         crate::set_general_handler!(&mut idt, gh_nop, lo..=hi);
         let x = field_bits(&idt, v);
-        check_installed_at!("C13.install_new_table", x, MISSING, v, lo <= v && v <= hi, cs);
+        check_installed_at!(
+            "C13.install_new_table.present_exactly_non_reserved_in_range: a non-reserved vector in the range is present",
+            "C13.install_new_table.installed_entry_is_default_interrupt_gate: selector == CS, type 0xE, DPL 0, IST 0",
+            "C13.install_new_table.all_other_entries_untouched: descriptor identical to the prior table (reserved or out of range)",
+            x, MISSING, v, lo <= v && v <= hi, cs
+        );
     }
 
     /// Single-index form `set_general_handler!(idt, h, 14)` (a special-cased vector: #PF) into a `new()` table.
     //@ obligation C13 C13.install_single_index_new_table.literal_14 bounded="one literal (the index must be a literal token); prior table = new()"
     #[kani::proof]
     #[kani::stub(crate::addr::VirtAddr::new, virt_addr_new_unchecked)]
+    #[allow(arithmetic_overflow)] // an overflowing literal range in the macro arm must FAIL here, not break the build
     fn c13_install_single_index_14_new_table() {
         verif_hw::reset_symbolic();
         let cs = verif_hw::m().cs;
@@ -278,6 +277,7 @@ mod verif_c13_general_handler {
     //@ obligation C13 C13.install_single_index_new_table.literal_15 bounded="one literal (the index must be a literal token); prior table = new()"
     #[kani::proof]
     #[kani::stub(crate::addr::VirtAddr::new, virt_addr_new_unchecked)]
+    #[allow(arithmetic_overflow)] // an overflowing literal range in the macro arm must FAIL here, not break the build
     fn c13_install_single_index_15_new_table() {
         verif_hw::reset_symbolic();
         let cs = verif_hw::m().cs;
@@ -293,6 +293,7 @@ mod verif_c13_general_handler {
     //@ obligation C13 C13.install_single_index_new_table.literal_255 bounded="one literal (the index must be a literal token); prior table = new()"
     #[kani::proof]
     #[kani::stub(crate::addr::VirtAddr::new, virt_addr_new_unchecked)]
+    #[allow(arithmetic_overflow)] // an overflowing literal range in the macro arm must FAIL here, not break the build
     fn c13_install_single_index_255_new_table() {
         verif_hw::reset_symbolic();
         let cs = verif_hw::m().cs;
@@ -329,7 +330,12 @@ mod verif_c13_general_handler {
         let x0 = field_bits(&idt, v);
         crate::set_general_handler!(&mut idt, gh_nop, lo..=hi);
         let x = field_bits(&idt, v);
-        check_installed_at!("C13.install", x, x0, v, lo <= v && v <= hi, cs);
+        check_installed_at!(
+            "C13.install.present_exactly_non_reserved_in_range: a non-reserved vector in the range is present",
+            "C13.install.installed_entry_is_default_interrupt_gate: selector == CS, type 0xE, DPL 0, IST 0",
+            "C13.install.all_other_entries_untouched: descriptor identical to the prior table (reserved or out of range)",
+            x, x0, v, lo <= v && v <= hi, cs
+        );
     }
 
     /// `lo..hi` (end excluded), arbitrary prior table.
@@ -350,7 +356,12 @@ mod verif_c13_general_handler {
         let x0 = field_bits(&idt, v);
         crate::set_general_handler!(&mut idt, gh_nop, lo..hi);
         let x = field_bits(&idt, v);
-        check_installed_at!("C13.install_range_exclusive", x, x0, v, lo <= v && v < hi, cs);
+        check_installed_at!(
+            "C13.install_range_exclusive.present_exactly_non_reserved_in_range: a non-reserved vector in the range is present",
+            "C13.install_range_exclusive.installed_entry_is_default_interrupt_gate: selector == CS, type 0xE, DPL 0, IST 0",
+            "C13.install_range_exclusive.all_other_entries_untouched: descriptor identical to the prior table (reserved or out of range)",
+            x, x0, v, lo <= v && v < hi, cs
+        );
     }
 
     /// `lo..` (up to vector 255), arbitrary prior table.
@@ -370,7 +381,12 @@ mod verif_c13_general_handler {
         let x0 = field_bits(&idt, v);
         crate::set_general_handler!(&mut idt, gh_nop, lo..);
         let x = field_bits(&idt, v);
-        check_installed_at!("C13.install_range_from", x, x0, v, lo <= v, cs);
+        check_installed_at!(
+            "C13.install_range_from.present_exactly_non_reserved_in_range: a non-reserved vector in the range is present",
+            "C13.install_range_from.installed_entry_is_default_interrupt_gate: selector == CS, type 0xE, DPL 0, IST 0",
+            "C13.install_range_from.all_other_entries_untouched: descriptor identical to the prior table (reserved or out of range)",
+            x, x0, v, lo <= v, cs
+        );
     }
 
     /// `set_general_handler!(idt, h)`: the full table, arbitrary prior table; and
@@ -392,7 +408,12 @@ mod verif_c13_general_handler {
         let x0 = field_bits(&idt, v);
         crate::set_general_handler!(&mut idt, gh_nop);
         let x = field_bits(&idt, v);
-        check_installed_at!("C13.install_full_table", x, x0, v, true, cs);
+        check_installed_at!(
+            "C13.install_full_table.present_exactly_non_reserved_in_range: a non-reserved vector in the range is present",
+            "C13.install_full_table.installed_entry_is_default_interrupt_gate: selector == CS, type 0xE, DPL 0, IST 0",
+            "C13.install_full_table.all_other_entries_untouched: descriptor identical to the prior table (reserved or out of range)",
+            x, x0, v, true, cs
+        );
         assert!(
             is_reserved(v) || is_reserved(w) || v == w || g_offset(x) != g_offset(field_bits(&idt, w)),
             "C13.install_full_table.distinct_stub_per_vector: different vectors point to different stubs"
@@ -404,6 +425,7 @@ mod verif_c13_general_handler {
     #[kani::proof]
     #[kani::unwind(226)]
     #[kani::stub(crate::addr::VirtAddr::new, virt_addr_new_unchecked)]
+    #[allow(arithmetic_overflow)] // an overflowing literal range in the macro arm must FAIL here, not break the build
     fn c13_install_single_index() {
         verif_hw::reset_symbolic();
         let cs = verif_hw::m().cs;
